@@ -326,7 +326,9 @@ func (fc *FnCtx) applyContract(st *State, instr ssa.CallInstruction, c *Contract
 		}
 		r := r
 		vc.safeEval(fmt.Sprintf("%s:%d requires", r.File, r.Line), func() {
-			vc.oblige(st, "requires", label, site+":"+label, pos, env.evalBool(r.E))
+			t := env.evalBool(r.E)
+			vc.oblige(st, "requires", label, site+":"+label, pos, t)
+			st.guard = vc.define("g_pre", SBool, mkAnd(st.guard, t))
 		})
 	}
 	// frame: havoc what the callee may modify
